@@ -30,7 +30,7 @@ pub const PROC_POINTS: [&str; 11] = [
     "clear:after_store_clear",
 ];
 pub const CLIENT_POINTS: [&str; 5] = ["remove:after_store_remove", "update:after_store_update", "insert:before_send", "wait:before_send", "clear:after_signal"];
-pub const RACERS: [&str; 9] = ["clear", "remove-same", "update-same", "insert-other", "get_mut-write", "tick", "wait", "get-same", "remove-other"];
+pub const RACERS: [&str; 10] = ["clear", "remove-same", "update-same", "insert-other", "get_mut-write", "tick", "wait", "get-same", "remove-other", "if-present-pending"];
 
 struct Rec(Mutex<Vec<OpRec>>);
 impl Rec {
@@ -199,6 +199,24 @@ fn scenario(flavor: Flavor, point: &'static str, racer: &'static str, seed: u64)
                     }
                 }
                 "insert-other" => drop(do_insert(d3.as_ref(), &rec3, 3, &ids3, 4, 1, 0)),
+                "if-present-pending" => {
+                    // key 5 is the one whose first insert may still be buffered; key 2 is resident
+                    for k in [5u64, same] {
+                        let id = ids3.fetch_add(1, Ordering::SeqCst);
+                        let mut r = OpRec { tid: 3, op: super::hostile::OP_IF_PRESENT, key: k, id, cost: 1, ..Default::default() };
+                        let before = val::tl_exits();
+                        r.call = seq::next();
+                        match d3.try_insert_if_present(k, Tracked::new(id, k), 1) {
+                            Ok(b) => r.ok = b,
+                            Err(_) => r.err = true,
+                        }
+                        r.ret = seq::next();
+                        let after = val::tl_exits();
+                        r.update_path = after.0 != before.0;
+                        r.exited_id = if r.update_path { after.1 } else { 0 };
+                        rec3.push(r);
+                    }
+                }
                 "get_mut-write" => drop(do_simple(d3.as_ref(), &rec3, 3, OP_GET_MUT_WRITE, same, &ids3)),
                 "tick" => {
                     clock::advance(Duration::from_secs(2));
